@@ -107,7 +107,7 @@ ISpec == IInit /\ [][INext]_ivars
 (* rendering *)
 RECURSIVE EscS(_)
 EscS(s) == IF s = "" THEN "" ELSE LET c == SubSeq(s, 1, 1) IN
-           (CASE c = "&" -> "&amp;" [] c = "<" -> "&lt;" [] c = ">" -> "&gt;" [] c = "\"" -> "&quot;" [] OTHER -> c) \o EscS(SubSeq(s, 2, Len(s)))
+           (CASE c = "&" -> "&amp;" [] c = "<" -> "&lt;" [] c = ">" -> "&gt;" [] OTHER -> c) \o EscS(SubSeq(s, 2, Len(s)))      \* (text: quotes stay)
 Sub(r, a, b) == Flat(SubSeq(r, a, b))
 CodeContent(r, g) ==
     LET n == RunLen(r, g.s, "`")
